@@ -127,9 +127,7 @@ def run(ctx):
     ctx.rule('C12.2-number-shapes', 'numbers compare by mathematical value: no comparison on the number path uses the IEEE total order (total_cmp separates -0.0 from 0.0, which are the same number), '
              'and the magnitude of a negative i64 is taken with wrapping_neg / unsigned_abs (exact for i64::MIN), never with a saturating or plain negation', floor=4)
     from ..families import check_casts
-    MAG = {r're:erltf::(term|borrowed)::compare_int_bigint:wrapping_neg\(i\)\(i64->u64\)':
-           'two\'s-complement magnitude of a negative i64: wrapping_neg then reinterpretation as u64 yields |i| exactly, i64::MIN included (taken on the i < 0 branch)',
-           r're:erltf::(term|borrowed)::compare_int_bigint:unsigned_abs\(i\).*': 'unsigned_abs is exact'}
+    MAG = {}
     for which in ('owned', 'borrowed'):
         root = CMP_O if which == 'owned' else CMP_B
         reach = sorted(q for q in P.reachable_from([root]) if ctx.F.bodies[q]['crate'] == 'erltf')
